@@ -1,4 +1,6 @@
 """Per-property metadata used by the check runner."""
+HOOK_COMMITS = []
+
 PROPS = {
     "C01": {"category": "proof", "driver": None},
     "C02": {"category": "proof", "driver": None},
@@ -12,7 +14,15 @@ PROPS = {
     "C10": {"category": "proof", "driver": None},
     "C11": {"category": "exploration", "driver": None},
     "C12": {"category": "proof", "driver": None},
-    "C13": {"category": "proof", "driver": None},
+    "C13": {"category": "proof", "driver": "C13", "claimed": True,
+            "technique": "contract-based deductive verification (own AST->VC generator, z3/cvc5) of evaluate/_check_cuts/check_cuts_array/kernels "
+                         "+ exhaustive bounded run-time check of the box [-2,n+2]^k",
+            "level_text": "Post of BaseIntervalScorer.evaluate per concrete scorer class: raises ValueError iff not ValidCuts(cuts,n,k,min_size), "
+                          "otherwise returns the spec value; every array index inside the kernels carries the obligation 0<=i<len (no wrap-around, "
+                          "no slice truncation), so an unvalidated cut is a failed obligation. Discharged for all inputs by SMT; classes not yet under "
+                          "contract are covered only by the exhaustive bounded driver (stated in evidence).",
+            "level_note": "floats as reals, int64 unbounded, assumed NumPy/sktime contracts (evidence.assumptions); classes without a class-level "
+                          "contract yet (listed in evidence as bounded-only) are checked exhaustively on the box for n<=5 only"},
     "C14": {"category": "proof", "driver": None},
     "C15": {"category": "proof", "driver": None},
     "C16": {"category": "proof", "driver": None},
